@@ -1,7 +1,9 @@
 package rwriter
 
 import (
+	"bytes"
 	"net/http"
+	"slices"
 
 	"github.com/ipni/go-libipni/apierror"
 	"github.com/ipni/go-libipni/find/model"
@@ -30,6 +32,16 @@ func (pw *ProviderResponseWriter) WriteProviderResult(pr model.ProviderResult) e
 		}
 		pw.Flush()
 	} else {
+		// The result is encoded when the writer is closed: keep a copy, so
+		// that it is written as it was when it was handed over, as in
+		// streaming mode, whatever the caller does with its buffers next.
+		pr.ContextID = bytes.Clone(pr.ContextID)
+		pr.Metadata = bytes.Clone(pr.Metadata)
+		if pr.Provider != nil {
+			ai := *pr.Provider
+			ai.Addrs = slices.Clone(ai.Addrs)
+			pr.Provider = &ai
+		}
 		pw.result.ProviderResults = append(pw.result.ProviderResults, pr)
 	}
 	pw.count++
